@@ -148,42 +148,61 @@ func unmarshalTable(fn *ssa.Function) ([]wireField, []string) {
 		if _, isParam := base.(*ssa.Parameter); !isParam {
 			return // only the receiver, not temporaries
 		}
-		for _, l := range Leaves(st.Val, nil) {
-			switch x := l.(type) {
-			case *ssa.Call:
-				ord, op, w, ok := binaryCall(x)
-				if !ok || op != "get" {
-					continue
-				}
-				off, _, okc := sliceLow(x.Common().Args[1])
-				if !okc {
-					problems = append(problems, "read at a non-constant offset")
-					continue
-				}
-				wf := wireField{off, w, f.Name(), ord}
-				if !seen[wf.String()] {
-					seen[wf.String()] = true
-					out = append(out, wf)
-				}
-			case *ssa.UnOp:
-				if x.Op != token.MUL {
-					continue
-				}
-				ia, ok := x.X.(*ssa.IndexAddr)
-				if !ok {
-					continue
-				}
-				k, ok := constInt(ia.Index)
-				if !ok {
-					continue
-				}
-				wf := wireField{k, 1, f.Name(), "byte"}
-				if !seen[wf.String()] {
-					seen[wf.String()] = true
-					out = append(out, wf)
+		add := func(wf wireField) {
+			if !seen[wf.String()] {
+				seen[wf.String()] = true
+				out = append(out, wf)
+			}
+		}
+		// reads(v, shift, args): the wire reads v is made of. Inside a small
+		// reader helper (depth 1) a read of the helper's buffer parameter is
+		// shifted by the constant offset of the caller's argument.
+		var reads func(v ssa.Value, depth int, shift func(buf ssa.Value) (int64, bool))
+		reads = func(v ssa.Value, depth int, shift func(buf ssa.Value) (int64, bool)) {
+			for _, l := range Leaves(v, nil) {
+				switch x := l.(type) {
+				case *ssa.Extract:
+					if call, ok := x.Tuple.(*ssa.Call); ok {
+						readsOfHelper(call, x.Index, depth, shift, reads)
+					}
+				case *ssa.Call:
+					ord, op, w, ok := binaryCall(x)
+					if !ok {
+						readsOfHelper(x, 0, depth, shift, reads)
+						continue
+					}
+					if op != "get" {
+						continue
+					}
+					off, buf, okc := sliceLow(x.Common().Args[1])
+					sh, oks := shift(buf)
+					if !okc || !oks {
+						problems = append(problems, "read at a non-constant offset")
+						continue
+					}
+					add(wireField{off + sh, w, f.Name(), ord})
+				case *ssa.UnOp:
+					if x.Op != token.MUL {
+						continue
+					}
+					ia, ok := x.X.(*ssa.IndexAddr)
+					if !ok {
+						continue
+					}
+					k, ok := constInt(ia.Index)
+					if !ok {
+						continue
+					}
+					sh, oks := shift(ia.X)
+					if !oks {
+						problems = append(problems, "read at a non-constant offset")
+						continue
+					}
+					add(wireField{k + sh, 1, f.Name(), "byte"})
 				}
 			}
 		}
+		reads(st.Val, 0, func(ssa.Value) (int64, bool) { return 0, true })
 	})
 	return out, problems
 }
@@ -277,4 +296,33 @@ func layoutFromDoc(t docTable) ([]wireField, bool) {
 		off += w
 	}
 	return out, true
+}
+
+
+// readsOfHelper follows a field value into a small same-package helper that
+// decodes it from a buffer argument (`ts, err := unmarshalTimestamp(b)`).
+func readsOfHelper(call *ssa.Call, idx, depth int, outer func(ssa.Value) (int64, bool),
+	reads func(ssa.Value, int, func(ssa.Value) (int64, bool))) {
+	sc := call.Common().StaticCallee()
+	if depth >= 2 || sc == nil || sc.Pkg == nil || call.Parent().Pkg != sc.Pkg || len(sc.Blocks) == 0 || len(sc.Blocks) > 12 {
+		return
+	}
+	shift := func(buf ssa.Value) (int64, bool) {
+		for i, prm := range sc.Params {
+			if ssa.Value(prm) == buf && i < len(call.Common().Args) {
+				off, base, ok := sliceLow(call.Common().Args[i])
+				if !ok {
+					return 0, false
+				}
+				sh, ok2 := outer(base)
+				return off + sh, ok2
+			}
+		}
+		return 0, true
+	}
+	for _, b := range sc.Blocks {
+		if ret, ok := b.Instrs[len(b.Instrs)-1].(*ssa.Return); ok && idx < len(ret.Results) {
+			reads(ret.Results[idx], depth+1, shift)
+		}
+	}
 }
